@@ -143,6 +143,11 @@ class GroupAdditivityScheme(Scheme):
         descriptors = self._AssignDescriptor(mol, clean_mol)
         all_descriptors = groups.copy()
         all_descriptors.update(descriptors)
+        if os.environ.get('PGRADD_VERIF') == '1':
+            # Verification hook (off by default): keep a reference to the
+            # annotated molecule of this decomposition so that per-atom
+            # assignments, not only totals, can be inspected.
+            self._verif_last_mol = mol
         return all_descriptors
 
     def _AssignCenterPattern(self, mol, debug=0):
